@@ -186,6 +186,9 @@ static void explore(const MTab &T, const char *side, const Args &args)
             std::vector<u64> sa;
             bool full = (W == 2) || (W == 4 && thorough);
             sa = rep_alphabet(full);
+            // w=4 quick: the first state coefficient still ranges over ALL lane values (carries inside the
+            // 72-bit product depend on both halves of a), the other two over the boundary set
+            std::vector<u64> sa0 = (W == 4) ? rep_alphabet(true) : sa;
             const size_t n = sa.size();
             // admitted coefficient values: all below B8 for w<=4, a boundary subset above
             std::vector<u64> bv;
@@ -198,7 +201,7 @@ static void explore(const MTab &T, const char *side, const Args &args)
             {
                 Counters lc;
 #pragma omp for schedule(dynamic, 1) collapse(2)
-                for (size_t i0 = 0; i0 < n; i0++)
+                for (size_t i0 = 0; i0 < sa0.size(); i0++)
                     for (size_t i1 = 0; i1 < n; i1++)
                     {
                         u64 co[12], st[24], out[24];
@@ -207,7 +210,7 @@ static void explore(const MTab &T, const char *side, const Args &args)
                             {
                                 for (int i = 0; i < 4; i++) { u64 t = (bt + i) % nb; co[i] = bv[t % nbv]; co[4 + i] = bv[(t / nbv) % nbv]; co[8 + i] = bv[t / (nbv * nbv)]; }
                                 for (int s = 0; s < NS; s++)
-                                    for (int i = 0; i < 4; i++) { st[12 * s + i] = sa[i0]; st[12 * s + 4 + i] = sa[i1]; st[12 * s + 8 + i] = sa[(i2 + s) % n]; }
+                                    for (int i = 0; i < 4; i++) { st[12 * s + i] = sa0[i0]; st[12 * s + 4 + i] = sa[i1]; st[12 * s + 8 + i] = sa[(i2 + s) % n]; }
                                 run_check(e, side, st, co, out, lc, "chain8");
                                 lc.cases += 4 * NS;
                             }
@@ -274,6 +277,38 @@ static void explore(const MTab &T, const char *side, const Args &args)
                     }
             tc.evals += c.evals; tc.cases += c.cases; tc.nontriv += c.nontriv;
             rep().sample(fmt("generators-%s", e.name), fmt("\"kernel\":\"%s\",\"what\":\"lane products a*b = 2^64-1-delta exactly (raw product representation in [p,2^64)) in all three addends\",\"example\":{\"a\":\"0x3\",\"b\":\"0x5555555555555555\"},\"lane_cases\":%lld", e.name, c.cases), 1);
+        }
+        // ------------------------------------------------------------ natively, 8-bit variants: operands whose 72-bit product carries
+        // out of the middle 32-bit column: a_h = floor((k*2^32-1)/b), a_l = 2^32-1  (low32(a_h*b) + ((a_l*b)>>32) >= 2^32)
+        if (e.small8 && W == 32)
+        {
+            Counters c;
+            std::vector<std::pair<u64, u64>> cy;
+            for (u64 b = 2; b < 256; b++)
+                for (u64 k : {(u64)1, b / 2, b - 1})
+                {
+                    if (k == 0) continue;
+                    u64 ah = ((k << 32) - 1) / b;
+                    cy.push_back({(ah << 32) | 0xFFFFFFFFULL, b});
+                    cy.push_back({(ah << 32) | 0xFFFFFFFEULL, b});
+                    cy.push_back({((ah + 1) << 32) | 0xFFFFFFFFULL, b});
+                }
+            const int cl = coef_len(e.kind);
+            for (size_t g = 0; g < cy.size(); g++)
+            {
+                u64 st[24], co[144], out[24];
+                for (int pos = 0; pos < 12; pos += 5)
+                {
+                    for (int t = 0; t < 24; t++) st[t] = (t % 3 == 0) ? 0 : cy[(g + t) % cy.size()].first;
+                    for (int u = 0; u < cl; u++) co[u] = cy[(g + u) % cy.size()].second;
+                    for (int s2 = 0; s2 < NS; s2++) st[12 * s2 + pos] = cy[g].first;
+                    for (int u = pos; u < cl; u += 12) co[u] = cy[g].second;
+                    run_check(e, side, st, co, out, c, "carry72");
+                    c.cases++;
+                }
+            }
+            tc.evals += c.evals; tc.cases += c.cases; tc.nontriv += c.nontriv;
+            rep().sample(fmt("carry72-%s", e.name), fmt("\"kernel\":\"%s\",\"what\":\"8-bit coefficients b in [2,256) with states a = (floor((k*2^32-1)/b)<<32)|0xFFFFFFFF: the 72-bit product carries out of its middle column\",\"example\":{\"a\":\"0x55555555ffffffff\",\"b\":3},\"cases\":%lld", e.name, c.cases), 1);
         }
         // ------------------------------------------------------------ colsum
         if (e.kind == MK_MMULT4x12)
